@@ -59,7 +59,8 @@ REQUIRED_PROBES = {
               "shadowed_module_resolved", "torn_read", "names_checked",
               "shared_state_two_aliases", "nested_load_completed",
               "scratch_env", "module_members_checked",
-              "public_data_reassigned_then_required"],
+              "public_data_reassigned_then_required",
+              "store_changed_mid_session"],
 }
 REQUIRED_PROBES["thorough"] = REQUIRED_PROBES["quick"]
 
@@ -169,6 +170,12 @@ def gen_case(rng, tier, k):
                 "fail": rng.randrange(0, 12) if rng.random() < 0.12
                 else None}
         mods[f"m{i}"] = module_ir(rng, i, f"m{i}", deps[i], opts)
+    # a module with a syntax error, required like the others
+    if rng.random() < 0.3:
+        mods["mbad"] = [["mark", "LOAD mbad"], ["def", "cbad", 1],
+                        ["raw", rng.choice(["def x = ;", "1 +", "do 1; 2",
+                                            "def f() do\n  1;\n"])]]
+        ids = ids + ["mbad"]
     # a second module whose name differs from an existing one only in case:
     # a different module with its own state (the store is case sensitive)
     if rng.random() < 0.35:
@@ -376,6 +383,30 @@ def gen_case(rng, tier, k):
                      ["expr", ["call", fname, []]]]
             if rng.random() < 0.85:
                 stmts.append(["expr", ["call", fname, []]])
+        elif r < 0.585 and rng.random() < 0.5:
+            # the store changes between two commands: a loaded module's
+            # file is rewritten (same content), removed, or a missing
+            # module appears
+            loaded = sorted(pth for pth in mstore.files
+                            if any(pth.endswith("/" + x + ".ckl")
+                                   for mm in gm.values() for x in mm.loaded))
+            r2 = rng.random()
+            if loaded and r2 < 0.4:
+                pth = rng.choice(loaded)
+                op2 = {"kind": "putfile", "path": pth,
+                       "ir": mstore.files[pth]["ir"]}
+            elif loaded and r2 < 0.7:
+                pth = rng.choice(loaded)
+                op2 = {"kind": "rmfile", "path": pth}
+                mstore.files.pop(pth, None)
+            else:
+                d0 = MOD_HOME if loc in ("home", "both") else "/sim/mp1"
+                ir2 = [["mark", "LOAD gone"], ["def", "cg", 5]]
+                op2 = {"kind": "putfile", "path": f"{d0}/gone.ckl",
+                       "ir": ir2}
+                mstore.files[op2["path"]] = {"ir": ir2}
+            case["ops"].append(op2)
+            continue
         elif r < 0.60 and objs_of(scope):
             # what exactly does a module object expose?
             name, obj = rng.choice(objs_of(scope))
@@ -478,9 +509,9 @@ MUTANTS = [
          """        if False and moduleidentifier in base.modulestack:
             raise CklRuntimeError("""),
     _mut("module-path-last-hit-wins", "ckl/nodes.py",
-         """                                    modulesrc = infile.read()
-                                    break""",
-         """                                    modulesrc = infile.read()"""),
+         """                                modulesrc = self.readModuleFile(filepath)
+                                break""",
+         """                                modulesrc = self.readModuleFile(filepath)"""),
     _mut("module-object-snapshot-copied-state", "ckl/nodes.py",
          """        moduleEnv = None
             if moduleidentifier in modules:
